@@ -14,7 +14,11 @@ Three input streams:
        skeleton with nested directories and file symlinks: volume for get_setmap / summary / files;
   gen  generated C code bases (harness/gen/codebase.py + extra symlinks and deep directories) analysed in-process,
        all reports called in-process (StringIO), coverage `_compute` called in-process;
-  cli  a subset of the gen code bases additionally run through the three CLIs (thread pool of subprocesses).
+  cli  a subset of the gen code bases additionally run through the three CLIs (thread pool of subprocesses);
+  txt  (harness/props/c06_text.py) generated code bases WITHOUT includes and links, given to the model as SOURCE TEXT:
+       the composed pipeline C05 parser model -> C01 associator per -D list -> platform sets -> get_setmap / coverage
+       (driver op "c06text", theorems of Props/C06Compose.lean) against finder.find, get_setmap, summary and the real
+       coverage `_compute`; the oracle there is the C05 specification's counted lines + the C01 reference machine.
 """
 from __future__ import annotations
 
@@ -32,6 +36,7 @@ from fractions import Fraction
 
 from harness import core
 from harness.gen import codebase as G
+from harness.props import c06_text
 
 TOL = Fraction(5, 1000) + Fraction(1, 10 ** 9)
 PLATS = ["cpu", "gpu", "fpga", "arm", "dsp", "npu"]
@@ -827,7 +832,11 @@ def set_rule(ctx):
                 "real directory skeletons (<= 8 files, <= 3 symlinks incl. chains and link-only directories, depth <= 5, 0..6 platforms) "
                 "and (b) generated C code bases (shared generator + deep directory, extra/chained/dangling symlinks, 0..4 platforms) "
                 "analysed by finder.find. Non-trivial = distinct analysis results with a file below a sub-directory, >= 2 platform "
-                "sets of which one is non-empty, and at least one line no platform uses.")
+                "sets of which one is non-empty, and at least one line no platform uses. "
+                "(c) stream txt: 1..4 generated C texts (C01 conditional programs decorated with comments, continuations, literals; "
+                "no #include) x 0..4 platforms with 0..2 compile commands (-D lists) per file, given to the model as text; "
+                "non-trivial there = spec side defined, >= 2 platform sets of which one non-empty, a file with a conditional "
+                "directive and an uncounted physical line inside its extent.")
     ctx.assumptions += [
         "printed percentages / coverages accepted when within 0.005 + 1e-9 of the exact rational",
         "SLOC figures < 1000 per row (so _human_readable is the identity); larger ones compared through a re-statement of _human_readable",
@@ -836,6 +845,8 @@ def set_rule(ctx):
         "the per-line attribution and node list (num_lines, lines) come from the real parser/associator (properties C01-C05 cover them); "
         "C06 checks that num_lines = len(lines) and that no line belongs to two nodes",
         "content hash = SHA-512 of the file's bytes (what hashlib.file_digest(f, 'sha512') computes)",
+        "stream txt: code bases without #include / -include / symbolic links (cross-file attribution is C04's layer); every "
+        "configuration entry names a code-base file; ASCII texts with \\n newlines; platform names distinct",
     ]
 
 
@@ -847,12 +858,16 @@ def run(ctx, drv):
         ctx.count(key="corpus")
     scale = ctx.budget_scale
     if scale > 1:  # failing-input search: more in-process volume, same CLI volume
+        c06_text.run_stream(ctx, drv, ctx.n(150, 500))
+        if ctx.violations:
+            return
         run_fab(ctx, drv, ctx.n(40, 150), 6)
         run_gen(ctx, drv, ctx.n(30, 120), 16)
         return
     # time boxes keep the tier within its budget on a loaded machine (counts in the evidence are what was really run)
     run_fab(ctx, drv, ctx.n(80, 900), 6, seconds=18 if not ctx.thorough() else 150)
     run_gen(ctx, drv, ctx.n(120, 2000), ctx.n(20, 200), seconds=45 if not ctx.thorough() else 380)
+    c06_text.run_stream(ctx, drv, ctx.n(300, 4000), seconds=20 if not ctx.thorough() else 100)
 
 
 def search(ctx, drv):
@@ -861,6 +876,8 @@ def search(ctx, drv):
 
 def replay(ctx, drv, case):
     core.import_codebasin()
+    if case.get("kind") == "txt":
+        return c06_text.replay(ctx, drv, case)
     if case.get("kind") == "fab":
         with core.Scratch() as d:
             root = os.path.realpath(d)
